@@ -5,8 +5,8 @@ import (
 
 	"github.com/ontio/ontology/common"
 	"github.com/ontio/ontology/core/store"
-	"github.com/ontio/ontology/core/store/overlaydb"
 	"github.com/ontio/ontology/core/store/ledgerstore"
+	"github.com/ontio/ontology/core/store/overlaydb"
 	"github.com/ontio/ontology/core/types"
 	"github.com/ontio/ontology/smartcontract/event"
 	"github.com/ontio/ontology/smartcontract/service/neovm"
